@@ -147,7 +147,7 @@ enum {
         P_R1_TEXT, P_R1_ATTR, P_R1_BADPAR, P_R2_SIZE, P_R23_DH, P_R24_FLOF, P_R25, P_R1_M2,
         P_MIP_R1, P_MIP_R11, P_MIP_R15,
         P_MOT_R1, P_MOT_R10, P_MOT_R19, P_MOT_R21, P_MOT_R22, P_MOT_R24,
-        P_BTT_R1, P_BTT_R21, P_AIT_R1, P_MPT_R1, P_MPX_R1,
+        P_BTT_R1, P_BTT_R21, P_AIT_R1, P_MPT_R1, P_MPX_R1, P_BTT_R21B, P_AIT_R1C, P_AIT_R1D,
         P_POP_R1, P_POP_R3, P_POP_R4, P_DRCS_R1, P_DRCS_R2,
         P_TRIG_A, P_TRIG_B, P_TRIG_C, P_TRIG_D, P_TRIG_E,
         /* enhancement */
@@ -260,6 +260,17 @@ static void build_packets(void)
         d = PN(P_AIT_R1, "AIT row1 (titles 100, 101)"); pk_addr(d, 1, 1);
         { static const int a[8] = {1,0,0,0,0,0,0,0}, b[8] = {1,0,1,3,15,7,15,0};
           pk_nib(d, 2, a, 8); pk_text(d, 10, "News Index  "); pk_nib(d, 22, b, 8); pk_text(d, 30, "Sport{}|~   "); }
+        /* two AIT pages (17C, 16A) whose titles interleave: 17C has 100 and 110, 16A has 105 and 120 - walking the TOP index from
+         * 100 the best title of the first table (110) is beaten by one of the second (105) */
+        d = PN(P_BTT_R21B, "BTT row21 (links AIT 17C, AIT 16A)"); pk_addr(d, 1, 21);
+        { static const int l[5][8] = { {1,0x7,0xC,0,0,0,0,2}, {1,0x6,0xA,0,0,0,0,2}, {0,0xF,0xF,3,15,7,15,2}, {1,0,0,0,0,0,0,7}, {1,0,0,0,0,0,0,7} };
+          for (int i = 0; i < 5; i++) pk_nib(d, 2 + 8 * i, l[i], 8); }
+        d = PN(P_AIT_R1C, "AIT row1 (titles 100, 110)"); pk_addr(d, 1, 1);
+        { static const int a[8] = {1,0,0,3,15,7,15,0}, b[8] = {1,1,0,3,15,7,15,0};
+          pk_nib(d, 2, a, 8); pk_text(d, 10, "Index       "); pk_nib(d, 22, b, 8); pk_text(d, 30, "Weather     "); }
+        d = PN(P_AIT_R1D, "AIT row1 (titles 105, 120)"); pk_addr(d, 1, 1);
+        { static const int a[8] = {1,0,5,3,15,7,15,0}, b[8] = {1,2,0,3,15,7,15,0};
+          pk_nib(d, 2, a, 8); pk_text(d, 10, "Politics    "); pk_nib(d, 22, b, 8); pk_text(d, 30, "Culture     "); }
         d = PN(P_MPT_R1, "MPT row1"); pk_addr(d, 1, 1);
         { int c[40]; for (int i = 0; i < 40; i++) c[i] = (i * 5) & 15; pk_nib(d, 2, c, 40); }
         d = PN(P_MPX_R1, "MPT-EX row1"); pk_addr(d, 1, 1);
